@@ -502,6 +502,11 @@ static void scenario(int cfg)
         nops++;
     }
 
+    int f_values = 0; /* non-NULL values F holds at the end of the history */
+    for (int k = 0; k < nkeys; k++)
+        if (F->val[k])
+            f_values++;
+
     /* tear-down: units and keys in either order */
     if (C->keys_first) {
         for (int k = 0; k < nkeys; k++)
@@ -538,8 +543,7 @@ static void scenario(int cfg)
     abtmc_stat("gets", n_gets);
     abtmc_stat("unit_frees", n_frees);
     abtmc_stat("destructor_calls", c16_ndlog);
-    abtmc_observe("unit_frees=%ld destructor_calls=%d", n_frees,
-                  c16_ndlog / 4 * 4);
+    abtmc_observe("unit_frees=%ld final_values_on_F=%d", n_frees, f_values);
 }
 
 static const char *cfg_name(int i) { return cfgs[i].name; }
